@@ -152,6 +152,14 @@ func canConvert(from, to types.Type) bool {
 	return types.Implements(from, i)
 }
 
+// sortTypes puts types collected from a map into a fixed order,
+// so that a random index into them picks the same type in every build.
+func sortTypes(typs []types.Type) {
+	slices.SortFunc(typs, func(a, b types.Type) int {
+		return strings.Compare(a.String(), b.String())
+	})
+}
+
 // isSupportedType checks that it is possible to generate a compatible value using valueGenerators
 func isSupportedType(v types.Type) bool {
 	for t := range valueGenerators {
@@ -227,12 +235,20 @@ func (d *definedVar) HasRefs() bool {
 
 // initialize scans and writes all supported functions in all non-internal packages used in the program
 func (t *trashGenerator) initialize(ssaProg *ssa.Program) {
-	for _, p := range ssaProg.AllPackages() {
+	// AllPackages iterates over a map; sort so that globals and pkgFunctions,
+	// which are indexed by random numbers, do not depend on its order.
+	pkgs := ssaProg.AllPackages()
+	slices.SortFunc(pkgs, func(a, b *ssa.Package) int {
+		return strings.Compare(a.Pkg.Path(), b.Pkg.Path())
+	})
+	for _, p := range pkgs {
 		if isInternal(p.Pkg.Path()) || p.Pkg.Name() == "main" {
 			continue
 		}
 		var pkgFuncs []*types.Func
-		for _, member := range p.Members {
+		// Iterate in a fixed order, as the slices built here are indexed by random numbers.
+		for _, memberName := range slices.Sorted(maps.Keys(p.Members)) {
+			member := p.Members[memberName]
 			if !token.IsExported(member.Name()) {
 				continue
 			}
@@ -283,6 +299,7 @@ func (t *trashGenerator) chooseRandomVar(typ types.Type, vars map[string]*define
 	if len(candidates) == 0 {
 		return nil
 	}
+	slices.Sort(candidates) // map iteration order must not influence the random choice
 
 	targetVarName := candidates[t.rand.Intn(len(candidates))]
 	targetVar := vars[targetVarName]
@@ -326,6 +343,7 @@ func (t *trashGenerator) generateRandomConst(p types.Type, rand *mathrand.Rand) 
 	if len(candidates) == 0 {
 		panic(fmt.Errorf("unsupported type: %v", p))
 	}
+	sortTypes(candidates)
 
 	generatorType := candidates[rand.Intn(len(candidates))]
 	generator := valueGenerators[generatorType]
@@ -391,12 +409,16 @@ func (t *trashGenerator) chooseRandomMethod(vars map[string]*definedVar) (string
 		}
 		groupedCandidates[typ] = append(groupedCandidates[typ], name)
 	}
+	for _, names := range groupedCandidates {
+		slices.Sort(names)
+	}
 
 	if len(groupedCandidates) == 0 {
 		return "", nil
 	}
 
 	candidateTypes := slices.Collect(maps.Keys(groupedCandidates))
+	sortTypes(candidateTypes)
 	candidateType := candidateTypes[t.rand.Intn(len(candidateTypes))]
 	candidates := groupedCandidates[candidateType]
 
@@ -497,6 +519,7 @@ func (t *trashGenerator) generateAssign(vars map[string]*definedVar) ast.Stmt {
 			varNames = append(varNames, name)
 		}
 	}
+	slices.Sort(varNames)
 	t.rand.Shuffle(len(varNames), func(i, j int) {
 		varNames[i], varNames[j] = varNames[j], varNames[i]
 	})
